@@ -1,74 +1,94 @@
 ---- MODULE ConfigRedact ----
 (* Admin config dump and TLS private keys, property C20.
-   Anchors: pkg/configmanager/redact.go (redactedCopy / getMOSNConfigRedacted), effectiveconfig.go
-   (DumpJSON, HandleMOSNConfig), pkg/admin/server/apis.go (ConfigDump and its query variants),
-   runtime updates through the listener adapter, the cluster manager adapter and SetExtend.
+   Anchors: pkg/configmanager/redact.go (redactedCopy / getMOSNConfigRedacted / redactUntyped),
+   effectiveconfig.go (DumpJSON, HandleMOSNConfig), pkg/admin/server/apis.go (ConfigDump and its query
+   variants), runtime updates through the listener adapter, the cluster manager adapter and SetExtend.
 
-   A *position* is a place of the configuration where a TLS context (with an inline private key) can
-   be stored.  The effective configuration is abstracted to the set of positions that currently hold a
-   key.  Every dump endpoint shows a *view* (a subset of the positions); the response must show the
-   placeholder instead of each key in its view, and producing it must leave the stored configuration
-   (live and persisted) exactly as it was. *)
+   A *position* is a place of the configuration where TLS contexts (with inline private keys) can be
+   stored; a *slot* <<p, i>> is the i-th context at position p.  Single-context positions have slot 0
+   only; the typed context set of a filter chain has two; the ARRAY positions - a list of contexts
+   inside an untyped filter config ("sfa") and a list of servers with a context each inside an extend
+   ("exta") - have ArrayLen elements of which any subset carries an inline key (the others are
+   contexts without one: SDS, disabled, plain server).  The effective configuration is abstracted to
+   the set of slots that currently hold a key.  Every dump endpoint shows a *view* (a subset of the
+   positions); the response must show the placeholder instead of each key in its view, and producing
+   it must leave the stored configuration (live and persisted) exactly as it was. *)
 EXTENDS Integers, Sequences, FiniteSets, TLC, Json
 
-CONSTANTS Positions,   \* where a TLS context can be configured
+CONSTANTS Positions,   \* where TLS contexts can be configured
           Endpoints,   \* admin dump endpoints / parameters
           MaxOps,      \* length of the enumerated operation histories
+          ArrayLen,    \* number of elements of the array-shaped positions
           Defects      \* named ways for the redaction to go wrong
+
+ArrayPos == {"sfa", "exta"} \cap Positions
 
 (* one filter chain holds either a single context or a context set: configuring one replaces the other *)
 Excl(p) == CASE p = "lis_ctx" -> {"lis_set"} [] p = "lis_set" -> {"lis_ctx"} [] OTHER -> {}
-KeysAt(p) == IF p = "lis_set" THEN 2 ELSE 1
+
+(* which elements may carry a key when position p is (re)configured *)
+Patterns(p) == CASE p \in ArrayPos -> SUBSET (0..(ArrayLen - 1))
+                 [] p = "lis_set"  -> {{0, 1}}
+                 [] OTHER          -> {{0}}
+Full(p) == CASE p \in ArrayPos -> 0..(ArrayLen - 1) [] p = "lis_set" -> {0, 1} [] OTHER -> {0}
+SlotsOf(P, K(_)) == UNION { { <<p, i>> : i \in K(p) } : p \in P }
+FirstOnly(p) == IF p \in ArrayPos THEN {0} ELSE Full(p)
 
 ViewOf(e) == CASE e = "full"                          -> Positions
-               [] e = "mosnconfig"                    -> {"cm", "lis_ctx", "lis_set", "sf"}
+               [] e = "mosnconfig"                    -> {"cm", "lis_ctx", "lis_set", "sf", "sfa"}
                     \* transferConfig (every persist / hot-upgrade hand-over) leaves the listeners in MosnConfig.Servers[0]
                [] e \in {"allclusters", "cluster"}    -> {"clu"}
-               [] e \in {"alllisteners", "listener"}  -> {"lis_ctx", "lis_set", "sf"}
+               [] e \in {"alllisteners", "listener"}  -> {"lis_ctx", "lis_set", "sf", "sfa"}
                [] OTHER                               -> {}     \* allrouters, router: no TLS below a router
 
-(* positions the redactor walks: all of them in the intended design *)
-Walked == IF "UnwalkedExtends" \in Defects THEN Positions \ {"ext"} ELSE Positions
-
-VARIABLES stored,    \* positions holding a real key in the effective configuration (live = persisted form)
-          truth,     \* ghost: positions an operator configured a key at (never touched by dumps)
-          leaked,    \* positions whose key appeared in the last response
+VARIABLES stored,    \* slots holding a real key in the effective configuration (live = persisted form)
+          truth,     \* ghost: slots an operator configured a key at (never touched by dumps)
+          leaked,    \* slots whose key appeared in the last response
           redacted,  \* number of placeholders in the last response
           hist
 vars == <<stored, truth, leaked, redacted, hist>>
 
-RECURSIVE Sum(_)
-Sum(S) == IF S = {} THEN 0 ELSE LET x == CHOOSE y \in S : TRUE IN KeysAt(x) + Sum(S \ {x})
+(* slots the redactor reaches: all of them in the intended design *)
+Reached(st) ==
+  { s \in st :
+      /\ ~("UnwalkedExtends" \in Defects /\ s[1] \in {"ext", "exta"})
+      \* an array whose LAST element has nothing to redact is handed back as it was
+      /\ ~("ArrayLastOnly" \in Defects /\ s[1] \in ArrayPos /\ <<s[1], ArrayLen - 1>> \notin st) }
 
-Init == /\ stored \in {{}, Positions \ {"lis_set"}, Positions \ {"lis_ctx"}}
+Init == /\ stored \in { {},
+                        SlotsOf(Positions \ {"lis_set"}, Full),
+                        SlotsOf(Positions \ {"lis_ctx"}, Full),
+                        SlotsOf(Positions \ {"lis_set"}, FirstOnly) }   \* arrays: first element keyed, the rest plain
         /\ truth = stored /\ leaked = {} /\ redacted = 0
         /\ hist = <<[op |-> "init", init |-> stored]>>
 
 (* positions with a modelled runtime update; any further position of the generated type graph (names "g:<path>",
    added by the check at run time) is placed through the initial file only *)
-Runtime == {"lis_ctx", "lis_set", "clu", "cm", "ext", "sf"}
+Runtime == {"lis_ctx", "lis_set", "clu", "cm", "ext", "sf", "sfa", "exta"}
 
-Place(p) == /\ p \in Runtime
-            /\ stored' = (stored \ Excl(p)) \cup {p}
-            /\ truth' = (truth \ Excl(p)) \cup {p}
-            /\ leaked' = {} /\ redacted' = 0
-            /\ hist' = Append(hist, [op |-> "place", p |-> p])
+Replace(st, p, K) == { s \in st : s[1] \notin (Excl(p) \cup {p}) } \cup { <<p, i>> : i \in K }
 
-Dump(e) == LET inView == stored \cap ViewOf(e) IN
-           /\ leaked' = inView \ Walked
-           /\ redacted' = Sum(inView \cap Walked)
-           /\ stored' = IF "RedactInPlace" \in Defects THEN stored \ (inView \cap Walked) ELSE stored
+Place(p, K) == /\ p \in Runtime
+               /\ stored' = Replace(stored, p, K)
+               /\ truth' = Replace(truth, p, K)
+               /\ leaked' = {} /\ redacted' = 0
+               /\ hist' = Append(hist, [op |-> "place", p |-> p, k |-> K])
+
+Dump(e) == LET inView == { s \in stored : s[1] \in ViewOf(e) } IN
+           /\ leaked' = inView \ Reached(inView)
+           /\ redacted' = Cardinality(Reached(inView))
+           /\ stored' = IF "RedactInPlace" \in Defects THEN stored \ Reached(inView) ELSE stored
            /\ truth' = truth
            /\ hist' = Append(hist, [op |-> "dump", e |-> e])
 
 Next == /\ Len(hist) <= MaxOps
-        /\ \/ \E p \in Positions : Place(p)
+        /\ \/ \E p \in Positions : \E K \in Patterns(p) : Place(p, K)
            \/ \E e \in Endpoints : Dump(e)
 Spec == Init /\ [][Next]_vars
 
 (* ---------- C20 ---------- *)
-NoLeak        == leaked = {}
-DumpIsPure    == stored = truth      \* TLS keeps working, the restart file keeps the real keys
+NoLeak        == leaked = {}          \* per key: no slot's key in any response
+DumpIsPure    == stored = truth       \* TLS keeps working, the restart file keeps the real keys
 
 EmitCase == (Len(hist) = MaxOps + 1 /\ hist[MaxOps + 1].op = "dump") =>
               PrintT(<<"CASE", ToJson([init |-> hist[1].init, ops |-> SubSeq(hist, 2, Len(hist))])>>)
